@@ -5,6 +5,7 @@ CONSTANTS MaxRuns = 2
   BufSizes = {1, 2, 1000}
   Edges1 <- E1
   EdgesY <- EY
+  Caches = {FALSE, TRUE}
   WriteAlways = FALSE
 VIEW view
 INVARIANT BufBound
@@ -14,4 +15,5 @@ INVARIANT OneResultPerBranch
 INVARIANT NoRedo
 INVARIANT RedoRef
 INVARIANT RunIsSem
+INVARIANT CacheRef
 CHECK_DEADLOCK FALSE
